@@ -65,7 +65,7 @@ def merkle_case(draw):
     n = draw(st.one_of(st.integers(1, 17), st.integers(1, 70)))
     style = draw(st.sampled_from(["distinct", "distinct", "dup-tail", "repeated", "all-equal"]))
     return {"n": n, "style": style, "seed": draw(st.integers(0, 2**32)), "index": draw(st.integers(0, 200)),
-            "tamper": draw(st.sampled_from(["none", "other-leaf", "other-index", "index+2^depth", "twin-index", "bitflip-branch", "bitflip-root", "drop-level", "extra-level", "swap-levels"])), "bit": draw(st.integers(0, 10**6))}
+            "tamper": draw(st.sampled_from(["none", "other-leaf", "other-index", "index+2^depth", "twin-index", "bitflip-branch", "bitflip-root", "drop-level", "extra-level", "swap-levels", "inner-node-tx"])), "bit": draw(st.integers(0, 10**6))}
 
 
 def _leaves(case):
@@ -109,9 +109,41 @@ def check_merkle(case):
         br.insert(bit % (len(br) + 1), hashlib.sha256(b"x").digest())
     elif t == "swap-levels" and len(br) >= 2:
         a = bit % (len(br) - 1); br[a], br[a + 1] = br[a + 1], br[a]
+    elif t == "inner-node-tx":
+        # the documented extra rule (CVE-2017-12842), met on purpose: a 64-byte transaction (one input with a 13-byte script, no output) whose two halves
+        # are presented as a leaf and its sibling; the arithmetic of the branch is right, and the proof is refused all the same
+        seed_bytes = hashlib.sha256(f"{case['seed']}:tx64".encode()).digest()
+        tx64 = (2).to_bytes(4, "little") + b"\x01" + seed_bytes + (bit % 4).to_bytes(4, "little") + b"\x0d" + seed_bytes[:13] + b"\xff\xff\xff\xff" + b"\x00" + (bit % 500).to_bytes(4, "little")
+        try:
+            tx_ref.parse(tx64, False)
+        except tx_ref.ParseError:
+            raise HarnessError("the crafted 64 bytes are not a transaction") from None
+        half = bit % 2
+        proved, sibling = (tx64[:32], tx64[32:]) if half == 0 else (tx64[32:], tx64[:32])
+        above = [hashlib.sha256(f"{case['seed']}:up{k}".encode()).digest() for k in range(case["index"] % 3)]
+        node = hashlib.sha256(hashlib.sha256(tx64).digest()).digest()
+        for sib in above:
+            node = hashlib.sha256(hashlib.sha256(node + sib).digest()).digest()
+        if ref.root_from_branch(proved, [sibling, *above], half) != node:
+            raise HarnessError("the crafted branch does not add up in the model")
+        if merkle_proof.verify(proved[::-1], [b[::-1] for b in [sibling, *above]], half, node[::-1]) is not False:
+            raise Violation("merkle:inner-node-that-is-a-transaction-accepted", f"tx64={tx64.hex()} half={half} levels above={len(above)}")
+        return Outcome(True, (t, f"levels-above={len(above)}"))
     changed = (leaf, idx, rt, br) != (hs[i], i, root, branch)
     want_root = ref.root_from_branch(leaf, br, idx)
     want = want_root is not None and want_root == rt
+    # the documented extra rule (CVE-2017-12842): a branch one of whose 64-byte inner nodes is itself a serialized transaction is refused. The nodes here
+    # are hashes of counters, i.e. random bytes, and about one pair in 2^24 has that shape: such a case is left out rather than judged
+    node = leaf
+    for level, sib in enumerate(br):
+        pair = sib + node if (idx >> level) & 1 else node + sib
+        for allow_witness in (True, False):
+            try:
+                tx_ref.parse(pair, allow_witness)
+                return Outcome(False, (t, "inner-node-is-a-transaction"))
+            except tx_ref.ParseError:
+                pass
+        node = hashlib.sha256(hashlib.sha256(pair).digest()).digest()
     try:
         got_v = merkle_proof.verify(leaf[::-1], [b[::-1] for b in br], idx, rt[::-1])
     except Exception as e:  # noqa: BLE001
@@ -319,6 +351,10 @@ def _check_cmpct_narrow(case, block, txs, hdr, pre_idx, nonce, nb, tags):
         if len(set(sids)) != len(sids):
             return Outcome(False, tuple(tags) + ("narrow-block-collides",))
         cb = CmpctBlock(block.header, nonce, sids, [PrefilledTransaction(i, block.transactions[i]) for i in pre_idx])
+        # the cut ids reach the matching only if reconstruct derives its ids through the module's _short_id: with the block's own transactions and nothing
+        # else in the pool every position must be found; if not, the hook is not where this sub-case assumes and the case is left out (no verdict)
+        if pos and reconstruct(cb, [build.tx(txs[i]) for i in pos]).missing_indexes:
+            return Outcome(False, tuple(tags) + ("narrow-ids-hook-not-in-effect",))
         extras_d = [dict(txs[0], lock_time=2000 + k, vin=[dict(txs[0]["vin"][0], txid="cd" * 32, vout=k)]) for k in range(case["pool_extra"] + 2)]
         drop = {m % n for m in case["pool_missing"]}
         pool_d = [txs[i] for i in pos if i not in drop] + extras_d
@@ -343,9 +379,9 @@ def _check_cmpct_narrow(case, block, txs, hdr, pre_idx, nonce, nb, tags):
 # ---------------------------------------------------------------- compact targets
 @st.composite
 def compact_case(draw):
-    exp = draw(st.integers(0, 255))
+    exp = draw(st.one_of(st.integers(3, 0x20), st.integers(0, 0x24), st.integers(0, 255)))  # the exponents targets have, their neighbours, and all of them
     sig = draw(st.one_of(st.sampled_from([0, 1, 0x7FFFFF, 0x800000, 0x008000, 0x00FFFF, 0x000080, 0x80FFFF, 0xFFFFFF, 0x010000, 0x0000FF]), st.integers(0, 0xFFFFFF)))
-    tlen = draw(st.integers(0, 33))
+    tlen = draw(st.one_of(st.just(32), st.just(32), st.integers(0, 33)))
     lead = draw(st.sampled_from([0x01, 0x7F, 0x80, 0xFF, 0x00]))
     return {"bits": (exp << 24) | sig, "raw_bits": draw(st.integers(0, 2**32 - 1)), "use_raw": draw(st.booleans()),
             "target": (bytes([lead]) + draw(st.binary(min_size=max(tlen - 1, 0), max_size=max(tlen - 1, 0))))[:tlen].hex(),
@@ -370,6 +406,15 @@ def check_compact(case):
     # targets -> bits
     tg = bytes.fromhex(case["target"])
     tv = int.from_bytes(tg, "big")
+    if len(tg) < 32:
+        # the property is about 256-bit targets; a shorter spelling may be read (as the number it is) or refused
+        try:
+            short = pow_.bits_from_target(tg)
+        except BTClibValueError:
+            short = None
+        if short is not None and int.from_bytes(short, "big") != ref.get_compact(tv):
+            raise Violation("compact:bits_from_target", f"target={tg.hex()} lib={short.hex()} ref={ref.get_compact(tv):08x}")
+        tg = tg.rjust(32, b"\x00")
     if len(tg) <= 32:
         gb = pow_.bits_from_target(tg)
         if int.from_bytes(gb, "big") != ref.get_compact(tv):
@@ -383,10 +428,12 @@ def check_compact(case):
             raise Violation("compact:bits_from_target-negative", gb.hex())
     else:
         try:
-            pow_.bits_from_target(tg)
-            raise Violation("compact:oversized-target-accepted", tg.hex())
+            over_bits = pow_.bits_from_target(tg)
         except BTClibValueError:
-            pass
+            over_bits = None
+        # more than 32 bytes: a value that does not fit 256 bits is refused; zeros in front of one that fits may be forgiven, and then it is that value
+        if over_bits is not None and (tv >> 256 or int.from_bytes(over_bits, "big") != ref.get_compact(tv)):
+            raise Violation("compact:oversized-target-accepted", tg.hex())
     # canonical bits round trip
     if not over and not neg and value and ref.get_compact(value) == bits:
         if pow_.bits_from_target(pow_.target_from_bits(b4)) != b4:
@@ -396,16 +443,23 @@ def check_compact(case):
     if not over and not neg:
         t0 = datetime.datetime.fromtimestamp(1600000000, datetime.timezone.utc)
         t1 = t0 + datetime.timedelta(seconds=case["timespan"])
-        want = ref.next_work(bits, case["timespan"], ref.set_compact(int.from_bytes(lim, "big"))[0])
-        gotb = pow_.next_bits(b4, t0, t1, pow_limit_bits=lim)
-        if int.from_bytes(gotb, "big") != want:
+        limit_value = ref.set_compact(int.from_bytes(lim, "big"))[0]
+        want = ref.next_work(bits, case["timespan"], limit_value)
+        try:
+            gotb = pow_.next_bits(b4, t0, t1, pow_limit_bits=lim)
+        except BTClibValueError:
+            if value <= limit_value:
+                raise
+            gotb = None  # an old target above the limit is a state no chain is in: Core's arithmetic wraps there, refusing it is as good
+        if gotb is not None and int.from_bytes(gotb, "big") != want:
             raise Violation("compact:next_bits", f"bits={b4.hex()} timespan={case['timespan']} limit={lim.hex()} lib={gotb.hex()} ref={want:08x}")
     # work
     if not over and not neg and value:
         if pow_.block_work(b4) != ref.block_proof(bits):
             raise Violation("compact:block_work", b4.hex())
     exp = bits >> 24
-    return Outcome(True, (f"exp{'<3' if exp < 3 else '>32' if exp > 32 else '3..32'}", f"neg={neg}", f"overflow={over}"))
+    retarget = "retarget=" + ("none" if over or neg else "zero" if not value else "above-limit" if value > limit_value else "clamped" if want == ref.get_compact(limit_value) else "scaled")
+    return Outcome(True, (f"exp{'<3' if exp < 3 else '>32' if exp > 32 else '3..32'}", f"neg={neg}", f"overflow={over}", retarget))
 
 
 def compact_units(tier):
@@ -415,8 +469,11 @@ def compact_units(tier):
 def compact_run_unit(unit, col):
     (e,) = unit
     evals = nt = 0
-    for sig in [0, 1, 0x7FFFFF, 0x800000, 0x800001, 0x008000, 0x00FFFF, 0x0000FF, 0x000080, 0xFFFFFF, 0x010000, 0x00FF00, 0x7F0000]:
-        case = {"bits": (e << 24) | sig, "raw_bits": 0, "use_raw": False, "target": "", "timespan": 1209600, "limit": "207fffff"}
+    for k, sig in enumerate([0, 1, 0x7FFFFF, 0x800000, 0x800001, 0x008000, 0x00FFFF, 0x0000FF, 0x000080, 0xFFFFFF, 0x010000, 0x00FF00, 0x7F0000]):
+        # a target with its leading byte at the exponent's position, a retarget that scales (quarter, just above a quarter, identity, three quarters, times four)
+        # and the two limits
+        target = (bytes(max(0, 32 - e)) + sig.to_bytes(3, "big") + bytes(29))[:32].hex() if e <= 34 else "ff" * 32
+        case = {"bits": (e << 24) | sig, "raw_bits": 0, "use_raw": False, "target": target, "timespan": [302400, 302401, 1209600, 907200, 4838400][k % 5], "limit": ["207fffff", "1d00ffff"][k % 2]}
         try:
             check_compact(case)
         except Violation as v:
